@@ -41,7 +41,7 @@ pub fn describe_bounds(tier: Tier) -> String {
     format!(
         "link sweep: entries {{eth2, sll, ether-type}} x all sequences of <= {} link extensions over {} variants x 12 net/transport suffixes (4 with deviations), <= {} deviation(s) in different layers of the link part (prefixes with more than {} extensions: one less) + all pairs of deviations inside one layer; \
          net sweep: 6 link prefixes x {{ipv4, ipv4+ah, ipv6 + every extension chain of length <= {} ({} with deviations) over {{hbh,dest,routing,frag,ah}}}} x {} transports, <= {} deviation(s) in different layers of the net/transport part (chains longer than {}: one less) + all in-layer pairs; \
-         cross sweep: <= {} deviations anywhere over 30 reduced stackings; noise sweep: all literals of length <= {} over {{00,01,45,60,7f,80,ff}} + 0..64 filler bytes for every door; \
+         cross sweep: <= {} deviations anywhere over 30 reduced stackings; noise sweep: all literals of length <= {} over {{00,01,45,60,7f,80,ff}} + 0..64 filler bytes for every door; option sweep: all sequences of <= {} TCP option tokens (24 tokens: well formed, lying length bytes, unknown kinds) and <= {} NDP option tokens (40 tokens) cut at every byte, as raw option area and inside a TCP segment / neighbour solicitation; \
          every packet is closed by trailers {{0,1,5}} behind the innermost length field and by EVERY truncation point (layers > 192 B: boundaries and every 64th byte); every suffix starting at a layer boundary is also a case under the door its parent announces",
         b.link_exts,
         link_ext_alphabet(b.level).len(),
@@ -53,7 +53,9 @@ pub fn describe_bounds(tier: Tier) -> String {
         b.net_dev,
         b.net_devmax_chain,
         b.cross_dev,
-        b.noise_len
+        b.noise_len,
+        if b.level > 0 { 4 } else { 3 },
+        if b.level > 0 { 3 } else { 2 }
     )
 }
 
@@ -69,6 +71,7 @@ struct Plan {
     cross_stacks: Vec<(Door, Vec<L>)>,
     n_cross_units: u64,
     n_noise_units: u64,
+    n_opt_units: u64,
 }
 
 fn net_prefixes() -> Vec<(Door, Vec<L>, usize)> {
@@ -119,12 +122,60 @@ fn plan(tier: Tier) -> Plan {
     let cross = cross_stacks();
     // cross units: (stack, first deviating layer)
     let n_cross_units = cross.iter().map(|(_, s)| s.len() as u64).sum();
-    Plan { link_prefixes, n_link_units, chains0, n_net_units, cross_stacks: cross, n_cross_units, n_noise_units: NOISE_DOORS.len() as u64 }
+    let n_opt_units = (tcp_opt_tokens().len() + ndp_opt_tokens().len()) as u64;
+    Plan { link_prefixes, n_link_units, chains0, n_net_units, cross_stacks: cross, n_cross_units, n_noise_units: NOISE_DOORS.len() as u64, n_opt_units }
 }
 
 pub fn units(tier: Tier) -> u64 {
     let p = plan(tier);
-    p.n_link_units + p.n_net_units + p.n_cross_units + p.n_noise_units
+    p.n_link_units + p.n_net_units + p.n_cross_units + p.n_noise_units + p.n_opt_units
+}
+
+/// option tokens: well-formed options, options whose length byte lies, unknown kinds
+pub fn tcp_opt_tokens() -> Vec<Vec<u8>> {
+    let b8 = [0x11u8, 0x22, 0x33, 0x44, 0x55, 0x66, 0x77, 0x88];
+    let mut v: Vec<Vec<u8>> = vec![
+        vec![0],
+        vec![1],
+        vec![2, 4, 0x05, 0xb4],
+        vec![3, 3, 7],
+        vec![4, 2],
+        [&[5u8, 10][..], &b8[..]].concat(),
+        [&[5u8, 18][..], &b8[..], &b8[..]].concat(),
+        [&[5u8, 34][..], &b8[..], &b8[..], &b8[..], &b8[..]].concat(),
+        [&[8u8, 10][..], &b8[..]].concat(),
+        // lying length bytes
+        vec![2, 3, 0x05],
+        vec![2, 5, 0x05, 0xb4, 0x00],
+        vec![2, 0],
+        vec![2, 1],
+        vec![3, 2],
+        vec![3, 4, 7, 7],
+        vec![4, 3, 0],
+        [&[5u8, 9][..], &b8[..7]].concat(),
+        [&[5u8, 11][..], &b8[..], &[9u8][..]].concat(),
+        vec![5, 2],
+        [&[8u8, 9][..], &b8[..7]].concat(),
+        [&[8u8, 11][..], &b8[..], &[9u8][..]].concat(),
+        // unknown kinds
+        vec![6, 4, 1, 2],
+        vec![254, 2],
+        vec![255, 0],
+    ];
+    v.dedup();
+    v
+}
+pub fn ndp_opt_tokens() -> Vec<Vec<u8>> {
+    let mut v = vec![];
+    for t in [0u8, 1, 2, 3, 4, 5, 6, 255] {
+        for units in [0u8, 1, 2, 4, 5] {
+            let body = if units == 0 { 6 } else { units as usize * 8 - 2 };
+            let mut o = vec![t, units];
+            o.extend((0..body).map(|i| 0x40u8.wrapping_add(i as u8)));
+            v.push(o);
+        }
+    }
+    v
 }
 
 pub type CheckFn<'a> = &'a dyn Fn(Door, &[u8], &str, &mut Case);
@@ -372,6 +423,69 @@ pub fn run_unit(tier: Tier, u: u64, ctx: &mut Ctx, check: CheckFn) {
         return;
     }
     let u = u - p.n_cross_units;
+    // ---------------- option sweep: all sequences of <= 3 (TCP) / <= 2 (NDP) option tokens starting with token `u`,
+    // cut at every byte, as raw option area and inside a TCP segment / a neighbour solicitation
+    if u >= p.n_noise_units {
+        let k = (u - p.n_noise_units) as usize;
+        let tcp = tcp_opt_tokens();
+        let ndp = ndp_opt_tokens();
+        let (toks, is_tcp, first) = if k < tcp.len() { (&tcp, true, k) } else { (&ndp, false, k - tcp.len()) };
+        let depth = if is_tcp { 3 } else { 2 };
+        let depth = if b.level > 0 { depth + 1 } else { depth };
+        let mut seqs: Vec<Vec<u8>> = vec![toks[first].clone()];
+        let mut frontier = seqs.clone();
+        for _ in 1..depth {
+            let mut next = vec![];
+            for s0 in &frontier {
+                for t in toks.iter() {
+                    let mut x = s0.clone();
+                    x.extend_from_slice(t);
+                    if x.len() <= if is_tcp { 44 } else { 120 } {
+                        next.push(x);
+                    }
+                }
+            }
+            seqs.extend(next.iter().cloned());
+            frontier = next;
+        }
+        for area in &seqs {
+            for cut in 0..=area.len() {
+                let raw = &area[..cut];
+                let door = if is_tcp { Door::TcpOpts } else { Door::NdpOpts };
+                let shape = format!("options:{}:{}bytes", door.name(), area.len());
+                ctx.case(
+                    Some(case_key(door, raw)),
+                    || CaseDesc { shape: shape.clone(), text: format!("door={} bytes={}", door.name(), hex(raw)), rank: 8_000_000 + raw.len() as u64 },
+                    |case| check(door, raw, &shape, case),
+                );
+                // the same area inside a complete message (the header announces exactly `cut` option bytes)
+                let msg: Option<(Door, Vec<u8>)> = if is_tcp {
+                    if cut % 4 == 0 && cut <= 40 {
+                        let mut m = vec![0xc0, 0x01, 0x01, 0xbb, 1, 2, 3, 4, 5, 6, 7, 8, ((5 + cut / 4) as u8) << 4, 0x12, 0xff, 0xf0, 0x87, 0x65, 0, 1];
+                        m.extend_from_slice(raw);
+                        m.extend_from_slice(&[0xd0, 0xd7, 0xde]);
+                        Some((Door::Transport(6), m))
+                    } else {
+                        None
+                    }
+                } else {
+                    let mut m = vec![135u8, 0, 0x43, 0x21, 0, 0, 0, 0];
+                    m.extend((0..16).map(|i| 0x61u8 + i));
+                    m.extend_from_slice(raw);
+                    Some((Door::Transport(58), m))
+                };
+                if let Some((d, m)) = msg {
+                    let shape = format!("options-in-message:{}:{}bytes", d.name(), area.len());
+                    ctx.case(
+                        Some(case_key(d, &m)),
+                        || CaseDesc { shape: shape.clone(), text: format!("door={} bytes={}", d.name(), hex(&m)), rank: 8_100_000 + m.len() as u64 },
+                        |case| check(d, &m, &shape, case),
+                    );
+                }
+            }
+        }
+        return;
+    }
     // ---------------- noise sweep
     let door = NOISE_DOORS[u as usize];
     let alpha: [u8; 7] = [0x00, 0x01, 0x45, 0x60, 0x7f, 0x80, 0xff];
